@@ -65,7 +65,8 @@ fn scenario(pr: &Params) -> Verdict {
             c.send(&rc::encode_message(&m));
             mine.push(m);
         }
-        if pr.backpressure && p == 0 {
+        if pr.backpressure && p == 0 && pr.msgs == 99 {
+            // (kept for old replay files only: back-pressure during the handshake)
             world::script_wmodes(c.from_lib, &[world::WMode::Budget(7), world::WMode::Open]);
         }
         if pr.last_peer_leaves && p + 1 == n {
@@ -93,6 +94,9 @@ fn scenario(pr: &Params) -> Verdict {
     let got = std::rc::Rc::new(std::cell::RefCell::new(Vec::<Vec<Vec<u8>>>::new()));
     let sends = std::rc::Rc::new(std::cell::RefCell::new(Vec::<(String, Vec<usize>, bool)>::new()));
     let (got2, sends2, ids2) = (got.clone(), sends.clone(), ids.clone());
+    let deferred = std::rc::Rc::new(std::cell::RefCell::new(Vec::<(usize, Vec<u8>, bool)>::new()));
+    let deferred2 = deferred.clone();
+    let backpressure = pr.backpressure;
     let conns2 = conns.clone();
     let leaves = pr.last_peer_leaves;
     let (n_peers, n_msgs) = (n, pr.msgs);
@@ -123,13 +127,31 @@ fn scenario(pr: &Params) -> Verdict {
             // time passes between two calls of the application: everything else may run here
             world::yield_now().await;
             let before: Vec<usize> = conns2.iter().map(|c| world::tap_len(c.from_lib)).collect();
-            let body = vec![id.clone(), format!("to-{}", name).into_bytes(), vec![], b"z".to_vec()];
+            // (frames of equal content within one message: the empty frame twice, the last one at the very end)
+            let body = vec![id.clone(), format!("to-{}", name).into_bytes(), vec![], b"z".to_vec(), vec![]];
+            let squeezed = backpressure && dest == Some(0);
+            if squeezed {
+                // peer 0's connection takes 7 more bytes and then nothing until an environment event re-opens it
+                world::set_wmode(conns2[0].from_lib, world::WMode::Budget(7));
+                world::script_wmodes(conns2[0].from_lib, &[world::WMode::Open]);
+            }
             let r = sock.send(msg(&body)).await;
+            if squeezed {
+                // judged at final quiescence: accepted => all of it, and nothing else, is on that connection by then;
+                // refused => none of it
+                deferred2.borrow_mut().push((before[0], rc::encode_message(&body[1..]), r.is_ok()));
+                world::log(format!("send(to {}) under back-pressure -> {}", name, e3::ok_or_err(&r)));
+                // the next sends are measured once this one has settled
+                world::idle().await;
+                continue;
+            }
             let grew: Vec<usize> = conns2.iter().zip(&before).map(|(c, b)| world::tap_len(c.from_lib) - b).collect();
             world::log(format!("send(to {}) -> {} wires grew {:?}", name, e3::ok_or_err(&r), grew));
-            let want = rc::encode_message(&body[1..]).len();
+            let want_bytes = rc::encode_message(&body[1..]);
+            let want = want_bytes.len();
             let ok = match dest {
-                Some(p) => r.is_ok() && grew.iter().enumerate().all(|(q, g)| if q == p { *g == want } else { *g == 0 }),
+                // exactly the message minus its first frame, byte for byte, on exactly that peer's connection
+                Some(p) => r.is_ok() && grew.iter().enumerate().all(|(q, g)| if q == p { *g == want } else { *g == 0 }) && world::tap(conns2[p].from_lib)[before[p]..] == want_bytes[..],
                 None => {
                     if name.contains("gone") {
                         // a peer that has gone: must fail or at least reach nobody else; judged below
@@ -187,6 +209,17 @@ fn scenario(pr: &Params) -> Verdict {
     for m in &got {
         if !ids.iter().flatten().any(|id| m.first() == Some(id)) {
             v.violate("recv/unknown-label", format!("{}: recv returned a message whose first frame is no connection's identity: {}", what, rc::show_frames(m)));
+        }
+    }
+    for (from, bytes, accepted) in deferred.borrow().iter() {
+        let tap = conns[0].tap();
+        let after: &[u8] = &tap[(*from).min(tap.len())..];
+        let there = after.len() >= bytes.len() && after[..bytes.len()] == bytes[..];
+        if *accepted && !there {
+            v.violate("send/accepted-under-back-pressure-but-not-delivered", format!("{}: a send to peer 0 was accepted while its connection took only 7 more bytes; the connection re-opened, but at quiescence {} of the message's {} bytes are on its wire", what, after.len().min(bytes.len()), bytes.len()));
+        }
+        if !*accepted && !after.is_empty() && !there {
+            v.violate("send/refused-under-back-pressure-but-partly-written", format!("{}: a send to peer 0 failed under back-pressure but {} bytes of it are on the wire", what, after.len()));
         }
     }
     for (name, grew, ok) in sends.borrow().iter() {
@@ -290,7 +323,7 @@ fn reconnect_scenario(id_kind: u8, policy: u8) -> Verdict {
 /// message and ends (cleanly or by a reset); the end is seen by a recv call that stays pending and is then abandoned
 /// (`observed`), or by nobody; a send to the identity now must fail and write nothing anywhere; a second connection
 /// announces the same identity, sends, is answered, sends again, is answered again. A bystander B must see nothing.
-fn lives_scenario(id_kind: u8, reset: bool, observed: bool, policy: u8) -> Verdict {
+fn lives_scenario(id_kind: u8, reset: bool, observed: bool, still_open: bool, policy: u8) -> Verdict {
     world::reset(world::WorldCfg { nested_env: true, yields: true, select: false, policy, coop: false });
     let id = announced(id_kind, 0).unwrap();
     let a1 = e3::raw_conn("A1");
@@ -300,7 +333,9 @@ fn lives_scenario(id_kind: u8, reset: bool, observed: bool, policy: u8) -> Verdi
     a1.send(&rc::handshake("DEALER", Some(&id)));
     a1.send(&rc::encode_message(&[b"m1".to_vec()]));
     a1.gate("m1-received");
-    if reset {
+    if still_open {
+        // the first connection never ends: the second one takes the identity over while it is idle and registered
+    } else if reset {
         world::push_chunk(a1.to_lib, world::Chunk::Err(std::io::ErrorKind::ConnectionReset));
     } else {
         a1.eof();
@@ -330,8 +365,9 @@ fn lives_scenario(id_kind: u8, reset: bool, observed: bool, policy: u8) -> Verdi
         let r = world::until_idle(sock.recv()).await;
         obs2.borrow_mut().push(format!("recv#1 -> {}", show_recv(&r)));
         world::set_cond("m1-received");
-        if observed {
-            // this call sees the end of the first life, stays pending, and is abandoned
+        if observed || still_open {
+            // this call sees the end of the first life (or, with the first connection still open, finds it idle), stays
+            // pending, and is abandoned
             let r = world::until_idle(sock.recv()).await;
             obs2.borrow_mut().push(format!("recv (nothing to receive) -> {}", show_recv(&r)));
             if let Some(Err(_)) = r {
@@ -339,11 +375,13 @@ fn lives_scenario(id_kind: u8, reset: bool, observed: bool, policy: u8) -> Verdi
                 let r = world::until_idle(sock.recv()).await;
                 obs2.borrow_mut().push(format!("recv (nothing to receive) -> {}", show_recv(&r)));
             }
-            let w0 = wires();
-            world::yield_now().await;
-            let s = sock.send(msg(&[id2.clone(), b"to-the-gone".to_vec()])).await;
-            let w1 = wires();
-            obs2.borrow_mut().push(format!("send-to-gone -> {} first+{} second+{} bystander+{}", if s.is_ok() { "Ok" } else { "Err" }, w1.0 - w0.0, w1.1 - w0.1, w1.2 - w0.2));
+            if observed {
+                let w0 = wires();
+                world::yield_now().await;
+                let s = sock.send(msg(&[id2.clone(), b"to-the-gone".to_vec()])).await;
+                let w1 = wires();
+                obs2.borrow_mut().push(format!("send-to-gone -> {} first+{} second+{} bystander+{}", if s.is_ok() { "Ok" } else { "Err" }, w1.0 - w0.0, w1.1 - w0.1, w1.2 - w0.2));
+            }
         } else {
             world::idle().await;
         }
@@ -366,12 +404,16 @@ fn lives_scenario(id_kind: u8, reset: bool, observed: bool, policy: u8) -> Verdi
     let end = world::run(e3::HORIZON);
     let mut v = Verdict::default();
     v.truncated = end != world::RunEnd::Quiescent;
-    let what = format!(
-        "ROUTER: identity ({}) living two lives, the first ended by a {} {}",
-        if id_kind == 0 { "1 byte" } else { "255 bytes" },
-        if reset { "reset" } else { "clean close" },
-        if observed { "that a pending, then abandoned recv saw" } else { "nobody has seen yet" }
-    );
+    let what = if still_open {
+        format!("ROUTER: identity ({}) announced by a second connection while the first one is still open, idle and registered", if id_kind == 0 { "1 byte" } else { "255 bytes" })
+    } else {
+        format!(
+            "ROUTER: identity ({}) living two lives, the first ended by a {} {}",
+            if id_kind == 0 { "1 byte" } else { "255 bytes" },
+            if reset { "reset" } else { "clean close" },
+            if observed { "that a pending, then abandoned recv saw" } else { "nobody has seen yet" }
+        )
+    };
     for p in world::panics() {
         v.violate("panic", format!("{}: {}", what, p));
     }
@@ -389,10 +431,12 @@ fn lives_scenario(id_kind: u8, reset: bool, observed: bool, policy: u8) -> Verdi
             let reply_len = rc::encode_message(&[b"reply2".to_vec()]).len();
             let mut want = vec![format!("recv#1 -> Ok{}", rc::show_frames(&[id.clone(), b"m1".to_vec()]))];
             let mut got: Vec<String> = o.clone();
-            if observed {
+            if observed || still_open {
                 // the pending recv: pending, or one error for the reset and then pending
                 got.retain(|l| !(l.starts_with("recv (nothing to receive) -> ") && (l.ends_with("pending") || (reset && l.contains("Err")))));
-                want.push("send-to-gone -> Err first+0 second+0 bystander+0".to_string());
+                if observed {
+                    want.push("send-to-gone -> Err first+0 second+0 bystander+0".to_string());
+                }
             }
             want.push(format!("recv#2 -> Ok{}", rc::show_frames(&[id.clone(), b"m2".to_vec(), vec![]])));
             want.push(format!("reply#2 -> Ok first+0 second+{} bystander+0", reply_len));
@@ -643,7 +687,8 @@ pub fn run(tier: Tier, replay: Option<String>) -> i32 {
             }
             if p["scenario"] == "lives" {
                 let (k, reset, observed, pol) = (p["id_kind"].as_u64()? as u8, p["reset"].as_bool()?, p["observed"].as_bool()?, p["policy"].as_u64()? as u8);
-                return Some(std::sync::Arc::new(move || lives_scenario(k, reset, observed, pol)) as zvcore::explore::Scenario);
+                let still_open = p["still_open"].as_bool().unwrap_or(false);
+                return Some(std::sync::Arc::new(move || lives_scenario(k, reset, observed, still_open, pol)) as zvcore::explore::Scenario);
             }
             if p["scenario"] == "reconnect" {
                 let (k, pol) = (p["id_kind"].as_u64()? as u8, p["policy"].as_u64()? as u8);
@@ -705,10 +750,19 @@ pub fn run(tier: Tier, replay: Option<String>) -> i32 {
                         json!({"scenario":"lives","id_kind":id_kind,"reset":reset,"observed":observed,"policy":policy}),
                         tier.pick(1, 2),
                         tier.pick(100_000, 2_000_000),
-                        move || lives_scenario(id_kind, reset, observed, policy),
+                        move || lives_scenario(id_kind, reset, observed, false, policy),
                     ));
                 }
             }
+        }
+        for policy in 0..3u8 {
+            jobs.push(e3::job(
+                format!("C09/lives/id{}/still-open/policy{}", id_kind, policy),
+                json!({"scenario":"lives","id_kind":id_kind,"reset":false,"observed":false,"still_open":true,"policy":policy}),
+                tier.pick(1, 2),
+                tier.pick(100_000, 2_000_000),
+                move || lives_scenario(id_kind, false, false, true, policy),
+            ));
         }
     }
     for id_kind in 0..3u8 {
